@@ -347,6 +347,10 @@ pub fn totality_texts(tier: Tier) -> Vec<(String, String)> {
         .chain(crate::scale::string_items(false))
         .chain(crate::scale::shape_items())
     {
+        // chains deeper than 64 are outside this property's quantifier (nesting depth <= 64): C05 / C07 / C02 judge them
+        if label.starts_with("scale:else-if-chain") {
+            continue;
+        }
         v.push((label, text));
     }
     v
